@@ -490,6 +490,99 @@ u_table(uint64_t idx, void *arg)
                            "max and float registers) through regaccess2blockaccess");
 }
 
+/* requests arriving back to back: several frames in the source at once (a TCP stream, a filled UART FIFO), through
+ * octet sources and through sources exposing a transfer window (getbuffer) that is shorter than, equal to or longer
+ * than the frames; each request is served once, in order, and nothing of the next frame is eaten */
+static void
+u_pipeline(uint64_t idx, void *arg)
+{
+    (void)arg;
+    vh_rng rg;
+    vh_unit_rng(&rg, "pipeline", idx);
+    static const size_t wins[] = { 0, 1, 2, 5, 12, 13, 16, 17, 40, 64, 80 };
+    for (int rep = 0; rep < 40; rep++) {
+        vh_arena_reset();
+        const int serial = (int)vh_below(&rg, 2), mem16 = (int)vh_below(&rg, 2);
+        rp_next_window = wins[vh_below(&rg, sizeof wins / sizeof wins[0])];
+        rp_setup(&H, serial, mem16, 200);
+        const size_t window = H.winsize;
+        unsigned nreq = 2 + (unsigned)vh_below(&rg, 5);
+        struct req q[6];
+        static unsigned char stream[6 * 1400], wire[1400], raw[700];
+        size_t sn = 0;
+        uint16_t seq = (uint16_t)vh_rand(&rg);
+        for (unsigned i = 0; i < nreq; i++) {
+            do {
+                gen_req(&rg, &H, &q[i], seq);
+            } while ((q[i].kind != RT_READ_REQ && q[i].kind != RT_WRITE_REQ) || (q[i].w16 != 0) != (mem16 != 0) || q[i].bsize > 40);
+            seq++;
+            q[i].addr = 0x1000u * (i + 1) + (uint32_t)vh_below(&rg, 0x800); /* tell the requests apart */
+            size_t rawn, wn = wire_of(&q[i], serial, wire, raw, &rawn);
+            memcpy(stream + sn, wire, wn);
+            sn += wn;
+        }
+        rp_feed(&H, stream, sn);
+        H.in_bound = (unsigned)(4 * sn + 64);
+        H.out_n = 0;
+        H.ncalls = 0;
+        H.verdict = (RPBlockAccess){ .status = RP_RESP_ACK, .address = 0 };
+        H.fill_seed = (unsigned char)rep;
+        VH_CASE4(idx, rep, nreq, window);
+        RPMaybeFrame mf;
+        unsigned rounds = 0;
+        for (; rounds < nreq + 2; rounds++) {
+            size_t before = H.in_pos;
+            int rc = regp_recv(&H.p, &mf);
+            regp_process(&H.p, &mf);
+            regp_free(&H.p, mf.frame);
+            if (H.in_runaway || (H.in_pos >= H.in_n && (rc < 0 || H.in_pos == before)))
+                break;
+        }
+        char key[96], ctx[200];
+        snprintf(key, sizeof key, "workload=pipeline transport=%s mem=%d source=%s", serial ? "serial" : "tcp", mem16 ? 16 : 8,
+                 window ? "window" : "octet");
+        snprintf(ctx, sizeof ctx, "pipeline %" PRIu64 ".%d: %u requests back to back (%zu octets), transfer window %zu", idx, rep, nreq, sn,
+                 window);
+        (*vh_ncases)++;
+        if (H.in_runaway) {
+            vh_fail("no-progress", key, "%s: more than %u source calls", ctx, H.in_bound);
+            continue;
+        }
+        if (rp_live_blocks(&H) != 0 || H.bad_free)
+            vh_fail("block-ledger", key, "%s: %d blocks live, bad free=%d", ctx, rp_live_blocks(&H), H.bad_free);
+        if ((unsigned)H.ncalls != nreq) {
+            vh_fail("not-exactly-one-access", key, "%s: %d backend calls for %u requests", ctx, H.ncalls, nreq);
+        } else {
+            for (unsigned i = 0; i < nreq; i++) {
+                const struct rp_becall *c = &H.call[i];
+                if (c->write != (q[i].kind == RT_WRITE_REQ) || c->addr != q[i].addr || c->n != q[i].bsize
+                    || (c->write && (c->plcopy != q[i].plen || memcmp(c->payload, q[i].payload, c->plcopy))))
+                    vh_fail("access-differs", key, "%s: access %u is %s addr=%08x n=%zu, request %s addr=%08x n=%u", ctx, i,
+                            c->write ? "write" : "read", c->addr, c->n, q[i].kind == RT_WRITE_REQ ? "write" : "read", q[i].addr,
+                            q[i].bsize);
+            }
+        }
+        int nf = rp_unframe(serial, H.out, H.out_n, &SP);
+        if (nf != (int)nreq) {
+            vh_fail("not-exactly-one-response", key, "%s: %d reply frames for %u requests", ctx, nf, nreq);
+        } else {
+            for (unsigned i = 0; i < nreq; i++) {
+                struct rframe r;
+                if (rp_decode_raw(SP.raw[i], SP.len[i], &r) != 0 || r.type != (unsigned)q[i].kind + 1 || r.meta != 0 || r.seq != q[i].seq
+                    || r.addr != q[i].addr)
+                    vh_fail("response-header", key, "%s: reply %u type=%u code=%u seq=%u addr=%08x", ctx, i, r.type, r.meta, r.seq, r.addr);
+            }
+        }
+        if (window && window < 30)
+            VH_COUNT("pipeline through a transfer window shorter than the frames");
+        else if (window)
+            VH_COUNT("pipeline through a transfer window");
+        else
+            VH_COUNT("pipeline through an octet source");
+        vh_sig(0x06400000ull ^ (idx << 8) ^ (uint64_t)rep);
+    }
+}
+
 /* one instance serving 70000 requests in a row: counters, sequence numbers and whatever else accumulates over the
  * life of an instance pass 255, 256, 65535 and 65536 */
 static void
@@ -646,6 +739,10 @@ harness_run(void)
         vh_unit("bigblock", i, u_bigblock, NULL);
     for (uint64_t i = 0; i < 4; i++)
         vh_unit("marathon", i, u_marathon, NULL);
+    for (uint64_t i = 0; i < (vh_tier ? 4000u : 60u); i++)
+        vh_unit("pipeline", i, u_pipeline, NULL);
+    vh_require("pipeline through a transfer window shorter than the frames");
+    vh_require("pipeline through an octet source");
     vh_require("instance that served more than 65536 frames");
     for (uint64_t i = 0; i < (vh_tier ? 80000u : 700u); i++)
         vh_unit("session", i, u_session, NULL);
